@@ -137,6 +137,9 @@ def gen_c12_case(rng: random.Random):
                 case["weights"] = [[list(k), v] for k, v in ww.items()]
             else:
                 case["bad"] = None
+        if case["bad"] is None and case["aff"] and random.Random(repr(case["aff"])).random() < 0.15:
+            # an industry listed twice (as for regions and sectors, a duplicate is the same industry once)
+            case["aff"] = list(case["aff"]) + [random.Random(repr(case["aff"]) + "d").choice(case["aff"])]
     elif kind == "regions_sectors":
         regs = rng.sample(REGS, rng.randint(1, 3))
         secs = rng.sample(SECS, rng.randint(1, 3))
@@ -241,7 +244,7 @@ def run_c12_impl(case):
 def run_c12_model(dr: Driver, case):
     if case["kind"] == "industries":
         w = case["weights"]
-        req = {"op": "impact", "kind": "industries", "impact": q(case["impact"]), "aff": [lab(*a) for a in case["aff"]],
+        req = {"op": "impact", "kind": "industries", "impact": q(case["impact"]), "aff": list(dict.fromkeys(lab(*a) for a in case["aff"])),
                "weights": None if w is None else [[lab(*k), q(v)] for k, v in w]}
     elif case["kind"] == "regions_sectors":
         req = {"op": "impact", "kind": "regions_sectors", "impact": q(case["impact"]),
@@ -303,7 +306,7 @@ def explore_c12(tier, seed):
                     if any(v <= 0 for v in vals.values()):
                         viol(res, "C12", "non-positive per-industry impact", case=case)
                     if case["kind"] == "industries":
-                        want_aff = sorted(lab(*a) for a in case["aff"])
+                        want_aff = sorted(set(lab(*a) for a in case["aff"]))          # (an industry listed twice is that industry once)
                         w = case["weights"]
                         wd = None if w is None else {lab(*k): v for k, v in w}
                         if wd is not None:
@@ -443,6 +446,7 @@ def malformed_cases():
     K = corpus.capital_of(tb, cfg)
     cases.append(("impact above the capital stock", ev(impact={"rA|agri": float(K[0] * 1.5)})))
     cases.append(("household impact in an unknown region", ev(house={"rZ|gov": 3.0})))
+    cases.append(("negative household impact", ev(house={"rA|gov": 3000.0, "rB|gov": -1000.0})))
     cases.append(("household impact on an unknown final-demand category", ev(house={"rA|nosuchcat": 3.0})))
 
     def reb(**over):
@@ -1107,6 +1111,43 @@ def c16_loop_and_json(res, seed, tier):
             sc = scen.gen_scenario(s, rng.choice(["shocked", "crash"]), T=rng.choice([6, 10]), max_occ=3)
         if known.match_scenario("C16", sc):
             continue
+        # a run that only asks for the parameters file (no record, no events file): the artefact is written
+        od_p = tempfile.mkdtemp(prefix="verif_c16p_")
+        try:
+            simP = Simulation(scen.build_model(sc["table"], sc["model"]), n_temporal_units_to_sim=min(sc["T"], 6 * int(sc["model"]["dt"])),
+                              save_params=True, boario_output_dir=od_p)
+            try:
+                quiet_loop(simP)
+                found = list(Path(od_p).rglob("simulated_params.json"))
+                if not found:
+                    viol(res, "C16", "save_params=True: no simulated_params.json was written")
+            except Exception as e:
+                cause = getattr(e, "__cause__", None) or e
+                viol(res, "C16", f"a run with save_params=True only fails after its last step: {type(cause).__name__}: {str(cause)[:120]}")
+        except Exception:
+            pass
+        finally:
+            shutil.rmtree(od_p, ignore_errors=True)
+        # an event rescheduled through its public setters before it is registered: the events file describes the event simulated
+        if sc["events"]:
+            od_e = tempfile.mkdtemp(prefix="verif_c16e_")
+            try:
+                e0 = copy.deepcopy(sc["events"][0])
+                evo = scen.build_event(e0)
+                new_occ = int(e0["occ"]) + 1 if int(e0["occ"]) + 1 + int(e0["dur"]) <= sc["T"] else int(e0["occ"])
+                evo.occurrence = new_occ
+                simE = Simulation(scen.build_model(sc["table"], sc["model"]), n_temporal_units_to_sim=sc["T"], save_events=True, boario_output_dir=od_e)
+                simE.add_event(evo)
+                quiet_loop(simE)
+                fe = list(Path(od_e).rglob("simulated_events.json"))
+                if fe:
+                    got_occ = json.loads(fe[0].read_text())[0].get("occurrence")
+                    if got_occ != new_occ:
+                        viol(res, "C16", f"saved events: occurrence {got_occ!r}, the event simulated has occurrence {new_occ} (set through Event.occurrence)")
+            except Exception:
+                pass
+            finally:
+                shutil.rmtree(od_e, ignore_errors=True)
         outdir = tempfile.mkdtemp(prefix="verif_c16j_")
         try:
             sc2 = copy.deepcopy(sc)
